@@ -110,6 +110,22 @@ func checkC12(c *Check) {
 			}
 		})
 	}
+	// the loop function does not hand the callback to yet another function:
+	// an alternative delivery loop (behind an option, a flag) would deliver
+	// records outside the framing loop that the rules below examine
+	if rr := cbParam.Referrers(); rr != nil {
+		for _, u := range *rr {
+			ci, isCall := u.(ssa.CallInstruction)
+			if !isCall || ci.Common().Value == ssa.Value(cbParam) {
+				continue
+			}
+			for _, a := range ci.Common().Args {
+				if a == ssa.Value(cbParam) {
+					c.Bad("once-verbatim-in-order", "callback handed to "+calleeName(ci.Common())+" in "+ing.Name(), p.InstrPos(ci), "besides its own read loop the function passes the callback on to another function: records can be delivered by a second loop (an optional mode) whose framing, order and error handling are not those of the read loop")
+				}
+			}
+		}
+	}
 	c.Floor("callback call sites in Ingest", 1, len(cbCalls))
 	// 1. framing primitives in the package
 	nread := 0
